@@ -67,10 +67,13 @@ _p("C13", "proof",
    "fold the operands left to right, each under its own rule, simplify with fix_winding, return the engine's output and propagate engine failures.",
    [PATHOPS, BRIDGE, CPY])
 
-_p("C18", "proof",
-   "Relative to the assumed area measurement of pathops: SVGShape.might_paint (with apply_style_attribute and as_cmd_seq) is executed symbolically for "
+_p("C18", "other",
+   "Proved, relative to the assumed area measurement of pathops: SVGShape.might_paint (with apply_style_attribute and as_cmd_seq) is executed symbolically for "
    "every combination of geometry class, fill, stroke, display/style and symbolic opacities / stroke width / area, and shown equivalent to the paint "
-   "specification; remove_empty_subpaths/subpaths are shown to judge each subpath with its path's own paint and to leave kept subpaths in place.",
+   "specification; remove_empty_subpaths/subpaths are shown to judge each subpath with its path's own paint and to leave kept subpaths in place. "
+   "The consequence the property draws for whole documents ('removing ... never changes the rendered result') is cross-checked by the bounded component prune.render, "
+   "which found a genuine exception on the direct API (F45, known finding: the write-back of an edited shape under an ancestor that sets paint in a style attribute); "
+   "the level is therefore 'other', not 'proof'.",
    [PATHOPS, BRIDGE, CPY])
 
 _p("C20", "proof",
